@@ -2,6 +2,8 @@ import SmtpV.Basic
 import SmtpV.Model.DataReader
 import SmtpV.Spec.DataMon
 import Driver.Conv
+import Driver.Codec
+import Driver.ClientGlue
 /-!
 Line-protocol driver: runs the *same definitions the theorems are about* on the case
 lines the Go harness receives.  One case per line, one answer per line.
@@ -62,6 +64,7 @@ def runMon (f : List String) : String :=
   match c.head? with
   | some "dr" => monDR c a
   | some "conv" => Conv.monitor pid c a
+  | some "rt" => Codec.monitorRT c a
   | _ => "ok"
 
 def runCase (line : String) : String :=
@@ -70,6 +73,12 @@ def runCase (line : String) : String :=
   | some "dr" => probeDR f
   | some "mon" => runMon f
   | some "conv" => Conv.probe f
+  | some "xtext" => Codec.probeXtext f
+  | some "parse" => Codec.probeParse f
+  | some "reply" => Codec.probeReply f
+  | some "tosmtperr" => Codec.probeToSMTPErr f
+  | some "rt" => Codec.probeRT f
+  | some "cconv" => ClientGlue.probe f
   | some p => "DRIVER-UNKNOWN-PROBE " ++ p
   | none => "DRIVER-EMPTY"
 
